@@ -104,7 +104,8 @@ class C07(PropertyCheck):
     id = "C07"
     title = "Design-matrix regressors are linear, causal and shift-consistent"
     lean_modules = ["NipyVerif.Props.C07", "NipyVerif.Props.C07Grid", "NipyVerif.Props.C07Csv",
-                    "NipyVerif.Props.C07Par", "NipyVerif.Props.C07Names", "NipyVerif.Props.C07Source"]
+                    "NipyVerif.Props.C07Par", "NipyVerif.Props.C07Names", "NipyVerif.Props.C07Source",
+                    "NipyVerif.Props.C07Drift"]
     driver = "Drivers/C07.lean"
     rule = ("cases are (frame grid incl. start/dtype, oversampling, min_onset, paradigm, hrf model, drift, "
             "user regressors, names) tuples from a seeded PRNG, plus paradigm files (1-3 sessions) and "
@@ -119,8 +120,11 @@ class C07(PropertyCheck):
         "scipy.interpolate.interp1d(kind=linear) is piecewise-linear interpolation (checked to 1e-9 per case)",
         "np.convolve / np.cumsum / np.linspace are exact on the dyadic inputs generated (model is exact); for "
         "decimal TR / start the model is given the implementation's own high-resolution grid",
-        "cosine-drift orthonormality (DCT-II identity), kernel sums and the repr/float round trip of CSV values are "
-        "checked numerically by the oracle, not proved",
+        "cosine-drift orthonormality (DCT-II identity) is proved over the reals for the expressions the source "
+        "evaluates (Props/C07Drift, tied to the text by cosine_source_as_modelled); np.cos, np.sqrt and "
+        "floating-point summation are parameters: the arrays the code returns are compared numerically with that "
+        "statement (1e-9)",
+        "kernel sums and the repr/float round trip of CSV values are checked numerically by the oracle, not proved",
         "csv.Sniffer (used by load_paradigm_from_csv_file, and by dmtx_from_csv as a fall-back) is external: the "
         "dialect the implementation handed to csv.reader is observed and given to the model's reader",
         "a CSV record containing line breaks inside quotes spans several physical lines which csv.reader joins; the "
@@ -130,7 +134,7 @@ class C07(PropertyCheck):
                   "times (any start, TR, oversampling, min_onset <= 0), grid step and frame times on the grid, fir "
                   "0/amplitude rows, Gram-Schmidt orthogonality (polynomial drift), CSV parse(format) = id over all "
                   "characters, paradigm write/load round trip, exact uniqueness precondition of the column names. "
-                  "Numeric only: gamma kernels (parameters), cosine-drift orthonormality, kernel sums, float repr "
+                  "Cosine drift: the columns the source evaluates (expressions regenerated from the text) are proved orthonormal and orthogonal to the constant over the reals (DCT-II, Mathlib Real.cos) for every run length and order <= n; np.cos / np.sqrt / float summation are parameters (numeric oracle). Numeric only: gamma kernels (parameters), kernel sums, float repr "
                   "round trip, pinv-based orthogonalisation on ill-conditioned columns, csv.Sniffer")
     finding_keys = {}
 
